@@ -124,3 +124,17 @@ m("c15-supply-hatchery-only", "C15", "composite/factory.py", "        return sum
 m("c15-no-reap-after-grow", "C15", "composite/factory.py", "            missing_demand -= new_child.demand\n        self._reap_children()", "            missing_demand -= new_child.demand")
 m("c15-util-all-children", "C15", "composite/factory.py", "        active_children = [child for child in self.children if child.supply > 0]\n        try:\n            return sum(child.utilisation", "        active_children = [child for child in self.children]\n        try:\n            return sum(child.utilisation")
 m("c15-grow-counts-hatchery-only", "C15", "composite/factory.py", "missing_demand = target - sum(child.demand for child in self.children)", "missing_demand = target - sum(child.demand for child in self._hatchery if child.supply > 0)")
+# ---- C09
+m("c09-linear-no-sleep", "C09", "controller/linear.py", "            await trio.sleep(self.interval)", "            await trio.sleep(0)")
+m("c09-linear-twice", "C09", "controller/linear.py", "            self.regulate(self.interval)\n", "            self.regulate(self.interval)\n            self.regulate(self.interval)\n")
+m("c09-relative-single-pass", "C09", "controller/relative_supply.py", "        while True:\n            self.regulate(self.interval)\n            await trio.sleep(self.interval)", "        self.regulate(self.interval)\n        await trio.sleep(float('inf'))")
+m("c09-stepwise-sleep-first", "C09", "controller/stepwise.py", "        while True:\n            current_rule", "        while True:\n            await trio.sleep(interval)\n            current_rule")
+m("c09-switch-f5-revert", "C09", "controller/switch.py", "            self.regulate(self.interval)", "            self.regulate_demand(self.interval)")
+m("c09-switch-double-interval", "C09", "controller/switch.py", "            await trio.sleep(self.interval)", "            await trio.sleep(self.interval * 2)")
+m("c09-buffer-flush-on-write", "C09", "decorator/buffer.py", "    demand = 0.0\n\n    def __init__", "    @property\n    def demand(self):\n        return self._d\n\n    @demand.setter\n    def demand(self, v):\n        self._d = v\n        if getattr(self, 'target', None) is not None and v > 90:\n            self.target.demand = v\n\n    def __init__")
+m("c09-buffer-sleep-first", "C09", "decorator/buffer.py", "        while True:\n            if self.demand", "        while True:\n            await trio.sleep(self.window)\n            if self.demand")
+m("c09-buffer-stale-compare", "C09", "decorator/buffer.py", "            if self.demand != self.target.demand:", "            if self.demand > self.target.demand:")
+m("c09-factory-adjust-first", "C09", "composite/factory.py", "        while True:\n            await trio.sleep(self.interval)\n            # freeze target demand in case another thread updates us\n            supply, demand = self.supply, self.demand\n            if supply > demand:\n                self._shrink(target=demand)\n            else:\n                self._grow(target=demand)",
+  "        while True:\n            supply, demand = self.supply, self.demand\n            if supply > demand:\n                self._shrink(target=demand)\n            else:\n                self._grow(target=demand)\n            await trio.sleep(self.interval)")
+m("c09-factory-every-other", "C09", "composite/factory.py", "            await trio.sleep(self.interval)\n", "            await trio.sleep(self.interval)\n            await trio.sleep(self.interval)\n")
+m("c09-linear-interval-drift", "C09", "controller/linear.py", "            await trio.sleep(self.interval)", "            await trio.sleep(self.interval * 1.001)")
